@@ -159,6 +159,10 @@ func (c *immuClient) VerifyRow(ctx context.Context, row *schema.Row, table strin
 		return err
 	}
 
+	if vEntry == nil || vEntry.SqlEntry == nil || vEntry.InclusionProof == nil || !validVerifiableTx(vEntry.VerifiableTx) {
+		return store.ErrCorruptedData
+	}
+
 	if len(vEntry.PKIDs) < len(pkVals) {
 		return ErrIllegalArguments
 	}
